@@ -39,10 +39,26 @@ func TestC11(t *testing.T) {
 		cl.label("mode:" + mode)
 		cl.label("mapping:" + c.spec.Kind)
 		cl.label("pos:" + c.pos.Name)
+		// now and then the sketch had a former life (weighted values, then Clear) and a copy taken right after the Clear
+		// lives on beside it, receiving the same additions: whatever memory the two still share shows in the answers
+		var shadow *obs.SK
+		if rapid.IntRange(0, 4).Draw(t, "formerlife") == 0 {
+			for i, n := 0, rapid.IntRange(1, 4).Draw(t, "formern"); i < n; i++ {
+				v, _, _ := d.value(t, prof)
+				_ = s.AddWithCount(v, 2.5)
+			}
+			s.Clear()
+			cp := s.Copy()
+			shadow = &cp
+			cl.label("recycled-with-living-copy")
+		}
 		add := func(v, w float64) {
 			cl.logf("AddWithCount(%v,%v)", v, w)
 			if err := s.AddWithCount(v, w); err != nil {
 				t.Fatalf("C11: AddWithCount(%v,%v) refused: %v", v, w, err)
+			}
+			if shadow != nil {
+				_ = shadow.AddWithCount(v, w)
 			}
 			entries = append(entries, wEntry{v, w})
 		}
